@@ -246,6 +246,23 @@ def f15_instance(scale, numiter):
     return len(al), float(w[0]) / scale
 
 
+def f15_tiny_instance(scale):
+    """second listed input of F15 (false breakdown at tiny scale): A = scale * (random Hermitian 8 x 8), dt = 0.3j / scale;
+    returns (number of Lanczos vectors, relative error of expm_krylov with numiter = 8)"""
+    import pytenet as ptn
+    from scipy.linalg import expm
+    rng = np.random.default_rng(5)
+    n = 8
+    B = ptn.crandn((n, n), rng)
+    A = scale * (B + B.conj().T) / 2
+    v = ptn.crandn(n, rng)
+    dt = 0.3j / scale
+    e = ptn.expm_krylov(lambda x: A @ x, v, dt, n, hermitian=True)
+    ref = expm(dt * A) @ v
+    al, _be, _V = ptn.lanczos_iteration(lambda x: A @ x, v, n)
+    return len(al), float(np.linalg.norm(e - ref) / np.linalg.norm(ref))
+
+
 def known_findings_present(k):
     """F15: the listed input, replayed on the real code on every run"""
     if k.get('key') != 'ritz-past-exhaustion':
@@ -255,7 +272,14 @@ def known_findings_present(k):
         n10, r10 = f15_instance(10.0, 10)   # rounding noise above the absolute threshold: 10 vectors, Ritz value near -1
     except Exception:
         return False
-    return n1 == 6 and abs(r1 + 1 / 3) < 1e-9 and n10 > 6 and r10 < -0.5
+    a = n1 == 6 and abs(r1 + 1 / 3) < 1e-9 and n10 > 6 and r10 < -0.5
+    try:
+        m1, e1 = f15_tiny_instance(1e-6)     # 8 vectors, exact
+        m2, e2 = f15_tiny_instance(1e-13)    # genuine beta below the absolute threshold: 1 vector, error 0.43
+        b = m1 == 8 and e1 < 1e-12 and m2 < 8 and e2 > 1e-3
+    except Exception:
+        b = False
+    return a or b
 
 
 def search(tier, seed, hints, budget_s):
